@@ -105,8 +105,22 @@ impl<'a> Tape<'a> {
     pub fn utf8(&mut self, len: usize) -> String {
         let mut s = String::with_capacity(len);
         let ascii_only = self.below(3) == 0;
+        // characters that text-handling code likes to treat specially: byte order mark, NUL, no-break space, zero-width
+        // space, replacement character, line separators, the first / last scalars of each encoded length
+        const SPECIAL: [char; 16] = [
+            '\u{feff}', '\0', '\u{a0}', '\u{200b}', '\u{fffd}', '\u{2028}', '\u{85}', '\u{7f}', '\u{80}', '\u{7ff}', '\u{800}', '\u{ffff}', '\u{10000}', '\u{10ffff}', '\u{d7ff}',
+            '\u{e000}',
+        ];
+        let special_mode = self.below(6); // 0: special first character, 1: specials sprinkled, else none
         while s.len() < len {
             let room = len - s.len();
+            if (special_mode == 0 && s.is_empty()) || (special_mode == 1 && self.below(4) == 0) {
+                let c = SPECIAL[self.below(16)];
+                if c.len_utf8() <= room {
+                    s.push(c);
+                    continue;
+                }
+            }
             let k = if ascii_only { 1 } else { self.below(room.min(4)) + 1 };
             let c = match k {
                 1 => self.below(0x80) as u32, // includes NUL and control characters
@@ -218,7 +232,7 @@ pub fn gen_body(t: &mut Tape, attr: u16) -> Body {
 /// G-val: one AVP in the encodable domain (all 39 kinds + opaque hidden AVPs of any type)
 pub fn gen_avp(t: &mut Tape) -> SAvp {
     if t.chance(8) {
-        let attr = t.b_u16();
+        let attr = if t.chance(40) { ASSIGNED[t.below(39)] } else { t.b_u16() };
         let n = t.var_len(MAX_PAYLOAD);
         return SAvp { attr, hidden: true, body: Body::Opaque(t.blob(n)) };
     }
@@ -254,12 +268,50 @@ pub fn gen_stale_length(t: &mut Tape) -> u16 {
 
 /// G-val: a control message, 0 .. ~70 AVPs, built under the 65 535-octet budget, first AVP a Message Type
 pub fn gen_control(t: &mut Tape) -> SMsg {
-    let k = match t.below(8) {
-        0 => 0,
-        7 => 1 + t.below(70),
+    let k = match t.below(40) {
+        0..=4 => 0,
+        35..=38 => 1 + t.below(70),
+        39 => return gen_control_many(t),
         _ => 1 + t.below(6),
     };
     gen_control_k(t, k)
+}
+
+/// a control message with very many (up to ~3000) small AVPs: counts beyond 255 and beyond 1023
+pub fn gen_control_many(t: &mut Tape) -> SMsg {
+    let k = match t.below(6) {
+        0 => 250 + t.below(12),
+        1 => 1018 + t.below(12),
+        2 => 8185 + t.below(12),
+        3 => 10_921, // as many 6-octet AVPs as a message can hold
+        _ => 71 + t.below(3000),
+    };
+    let mut avps = vec![msg_type_avp(t)];
+    let mut budget = 65535usize - 12 - 8;
+    // a short cycle of cheap kinds whose values are drawn from a few tape octets; above 8 000 AVPs only the
+    // value-less kind fits (6 octets each)
+    let mixed = [6u16, 9, 10, 14, 39, 2, 32, 15, 24, 38];
+    let only39 = [39u16];
+    let kinds: &[u16] = if k > 8000 { &only39 } else { &mixed };
+    let base = t.u16();
+    for i in 1..k {
+        let attr = kinds[(i + base as usize) % kinds.len()];
+        let body = match fmt_of(attr).unwrap() {
+            Fmt::U16 => Body::U16(base.wrapping_add(i as u16)),
+            Fmt::U32 => Body::U32((base as u32) << 16 | i as u32),
+            Fmt::ProtoVer => Body::ProtoVer(i as u8, (i >> 8) as u8),
+            Fmt::ProxyId => Body::ProxyId(i as u8),
+            _ => Body::Empty,
+        };
+        let a = SAvp { attr, hidden: false, body };
+        let l = avp_wire_len(&a);
+        if l > budget {
+            break;
+        }
+        budget -= l;
+        avps.push(a);
+    }
+    SMsg::Control { length: gen_stale_length(t), tunnel: t.b_u16(), session: t.b_u16(), ns: t.b_u16(), nr: t.b_u16(), avps }
 }
 
 pub fn gen_control_k(t: &mut Tape, k: usize) -> SMsg {
@@ -315,7 +367,7 @@ pub fn gen_data(t: &mut Tape) -> SMsg {
         4 => 1,
         _ => 1 + t.below(64),
     };
-    let data = if n > 4096 { (0..n).map(|i| (i as u8) ^ 0x5a).collect() } else { t.blob(n) };
+    let data = if n > 4096 { (0..n).map(|i| (i as u8) ^ 0x5a).collect() } else { payload_bytes(t, n) };
     let offset = if has_off {
         Some(match t.below(4) {
             0 => 0,
@@ -333,6 +385,28 @@ pub fn gen_data(t: &mut Tape) -> SMsg {
         }
     }
     m
+}
+
+/// payload octets of a data message: generic blobs, or something that looks like the PPP frame it would really carry
+/// (optional address/control ff 03, a protocol number, a code / identifier / length header)
+pub fn payload_bytes(t: &mut Tape, n: usize) -> Vec<u8> {
+    if !t.chance(25) {
+        return t.blob(n);
+    }
+    let mut v = Vec::with_capacity(n);
+    if t.chance(50) {
+        v.extend_from_slice(&[0xff, 0x03]);
+    }
+    const PROTO: [[u8; 2]; 8] = [[0xc0, 0x21], [0xc0, 0x23], [0xc2, 0x23], [0x80, 0x21], [0x00, 0x21], [0x80, 0x57], [0x00, 0x57], [0xc0, 0x25]];
+    v.extend_from_slice(&PROTO[t.below(8)]);
+    v.push(1 + t.below(12) as u8); // code
+    v.push(t.byte()); // identifier
+    v.extend_from_slice(&(n as u16).to_be_bytes());
+    while v.len() < n {
+        v.push(t.byte());
+    }
+    v.truncate(n.max(1));
+    v
 }
 
 /// what a generated AVP record is meant to be
@@ -599,8 +673,8 @@ pub fn gen_wire(t: &mut Tape) -> Vec<u8> {
             encode_message(&m)
         }
         12..=16 => {
-            // control header + record list
-            let k = t.below(6);
+            // control header + record list (occasionally a long one: more than 8, 32, 64 records)
+            let k = if t.chance(6) { 7 + t.below(90) } else { t.below(6) };
             let mut body = Vec::new();
             if t.chance(85) {
                 encode_avp(&msg_type_avp(t), &mut body);
@@ -617,6 +691,7 @@ pub fn gen_wire(t: &mut Tape) -> Vec<u8> {
             control_around(t, &body)
         }
         17 => encode_noncanon(t).0,
+        18 if t.chance(6) => gen_wire_big(t),
         _ => {
             let n = t.below(48);
             t.raw(n)
@@ -633,13 +708,121 @@ pub fn gen_wire(t: &mut Tape) -> Vec<u8> {
     b
 }
 
+/// a cheap stream of small valid AVPs of about `total` octets (first one a Message Type)
+pub fn cheap_avp_stream(t: &mut Tape, total: usize) -> Vec<u8> {
+    let mut w = Vec::with_capacity(total + 16);
+    encode_avp(&msg_type_avp(t), &mut w);
+    let base = t.u16();
+    let mut i = 0u32;
+    while w.len() + 6 <= total {
+        let room = total - w.len();
+        let a = match (i + base as u32) % 4 {
+            0 if room >= 8 => SAvp { attr: 9, hidden: false, body: Body::U16(i as u16) },
+            1 if room >= 10 => SAvp { attr: 15, hidden: false, body: Body::U32(i) },
+            2 if room >= 14 => SAvp { attr: 5, hidden: false, body: Body::U64(i as u64) },
+            _ => SAvp { attr: 39, hidden: false, body: Body::Empty },
+        };
+        encode_avp(&a, &mut w);
+        i += 1;
+    }
+    w
+}
+
+/// inputs of 64 KiB and more, where 16-bit arithmetic on lengths and offsets wraps: a control header whose Length is the
+/// true size modulo 65536 (or simply small) in front of a valid AVP stream; a data message with a huge Offset Size and the
+/// pad really present; a valid message followed by enough octets to push the buffer past 65 535
+pub fn gen_wire_big(t: &mut Tape) -> Vec<u8> {
+    match t.below(5) {
+        4 => {
+            // control message of 32 KiB and more whose Length field overstates (or exactly matches) what is present
+            let body_len = 32768 - 40 + t.below(32000);
+            let body = cheap_avp_stream(t, body_len);
+            let true_len = 12 + body.len();
+            let v = match t.below(4) {
+                0 => 0xffff,
+                1 => true_len + 1 + t.below(64),
+                2 => true_len,
+                _ => true_len + t.below(65536 - true_len),
+            }
+            .min(0xffff);
+            let mut w = vec![0x13, 0x20, (v >> 8) as u8, v as u8, 0, 1, 0, 2, 0, 3, 0, 4];
+            w.extend_from_slice(&body);
+            w
+        }
+        0 => {
+            // Length field v in front of (v - 12) mod 65536 (+ 0 / 65536) octets of valid AVPs
+            let v = match t.below(4) {
+                0 => t.below(12),
+                1 => 12 + t.below(40),
+                _ => t.below(65536),
+            };
+            let body_len = (v + 65536 - 12) % 65536 + if t.chance(50) { 65536 } else { 0 };
+            let body = cheap_avp_stream(t, body_len.max(8));
+            let mut w = vec![0x13, 0x20, (v >> 8) as u8, v as u8, 0, 1, 0, 2, 0, 3, 0, 4];
+            w.extend_from_slice(&body);
+            w
+        }
+        1 => {
+            // data message, O bit (and maybe L, S), Offset Size near 65535 with the pad present
+            let l = t.chance(50);
+            let s_ = t.chance(50);
+            let mut f: u16 = 0x0020 | O;
+            if l {
+                f |= L;
+            }
+            if s_ {
+                f |= S;
+            }
+            let n = match t.below(4) {
+                0 => 65535,
+                1 => 65535 - t.below(16),
+                _ => 60000 + t.below(5536),
+            };
+            let mut w = f.to_be_bytes().to_vec();
+            if l {
+                w.extend_from_slice(&t.b_u16().to_be_bytes());
+            }
+            w.extend_from_slice(&[0, 7, 0, 9]);
+            if s_ {
+                w.extend_from_slice(&[0, 1, 0, 2]);
+            }
+            w.extend_from_slice(&(n as u16).to_be_bytes());
+            let extra = t.below(40);
+            let present = if t.chance(80) { n + extra } else { n.saturating_sub(1 + extra) };
+            w.extend((0..present).map(|i| (i as u8) ^ 0x3c));
+            w
+        }
+        2 => {
+            // a valid message followed by a suffix that makes the whole buffer 65 536 octets or a little more
+            let mut w = if t.chance(70) {
+                let k = t.below(5);
+                encode_message(&gen_control_k(t, k))
+            } else {
+                encode_message(&with_exact_length(gen_data_small(t)))
+            };
+            let target = 65536 + t.below(24) - 12;
+            while w.len() < target {
+                w.push((w.len() as u8) ^ 0x5a);
+            }
+            w
+        }
+        _ => {
+            // data message without Length carrying 64 KiB and more
+            let n = 65530 + t.below(5000);
+            let mut w = vec![if t.chance(50) { 0x80 } else { 0x00 }, 0x20, 0, 7, 0, 9];
+            w.extend((0..n).map(|i| (i as u8) ^ 0x77));
+            w
+        }
+    }
+}
+
 /// G-data restricted to payloads that keep inputs small (for wire mutation)
 pub fn gen_data_small(t: &mut Tape) -> SMsg {
     let prio = t.chance(50);
     let has_len = t.chance(60);
     let ns_nr = if t.chance(50) { Some((t.b_u16(), t.b_u16())) } else { None };
     let n = 1 + if t.chance(5) { t.below(3000) } else { t.below(40) };
-    let data = t.blob(n);
+    let data = payload_bytes(t, n);
     let offset = if t.chance(40) {
         Some(match t.below(3) {
             0 => 0,
@@ -834,13 +1017,7 @@ pub fn gen_hide(t: &mut Tape) -> HideCase {
     let avp = SAvp { attr, hidden: false, body: gen_body_max(t, attr, 1006) };
     let mut payload = Vec::new();
     encode_payload(&avp.body, &mut payload);
-    let sl = match t.below(8) {
-        0 => 0,
-        1 => 1 + t.below(64),
-        2 => 16,
-        _ => 1 + t.below(20),
-    };
-    let secret = t.blob(sl);
+    let secret = gen_secret(t);
     let rv = t.u32().to_be_bytes();
     let room = 1006 - payload.len();
     let base = 2 + payload.len();
@@ -862,6 +1039,59 @@ pub fn gen_hide(t: &mut Tape) -> HideCase {
     HideCase { avp, payload, secret, rv, lp, ap }
 }
 
+/// a shared secret: empty, short, around the MD5 block boundaries (the key material is type(2) + secret + rv(4) for the
+/// first block and secret + 16 octets for the others), and up to ~300 octets
+pub fn gen_secret(t: &mut Tape) -> Vec<u8> {
+    let n = match t.below(12) {
+        0 => 0,
+        1 => 1 + t.below(64),
+        2 => 16,
+        3 => [39usize, 40, 47, 48, 49, 50, 55, 56, 57, 58, 63, 64, 65][t.below(13)],
+        4 => 65 + t.below(240),
+        5 => [103usize, 104, 111, 112, 113, 119, 120, 121, 122, 127, 128, 129][t.below(12)],
+        _ => 1 + t.below(20),
+    };
+    t.blob(n)
+}
+
+/// a secret related to `s` in a way a weak cache key would confuse with it: a prefix, an extension, two octets swapped
+/// (including 8 apart), a neighbouring pair changed by (+1, -31), or simply another secret of the same length
+pub fn related_secret(t: &mut Tape, s: &[u8]) -> Vec<u8> {
+    let mut r = s.to_vec();
+    match t.below(7) {
+        0 => {
+            let n = t.below(s.len() + 1);
+            r.truncate(n);
+        }
+        1 => {
+            let n = 1 + t.below(4);
+            let x = t.raw(n);
+            r.extend_from_slice(&x);
+        }
+        2 if s.len() >= 2 => {
+            let i = t.below(s.len());
+            let j = t.below(s.len());
+            r.swap(i, j);
+        }
+        3 if s.len() >= 9 => {
+            let i = t.below(s.len() - 8);
+            r.swap(i, i + 8);
+        }
+        4 if s.len() >= 2 => {
+            let i = t.below(s.len() - 1);
+            r[i] = r[i].wrapping_add(1);
+            r[i + 1] = r[i + 1].wrapping_sub(31);
+        }
+        5 => r.clear(),
+        _ => {
+            for x in r.iter_mut() {
+                *x = t.byte();
+            }
+        }
+    }
+    r
+}
+
 pub struct HiddenCase {
     pub attr: u16,
     pub value: Vec<u8>,
@@ -878,25 +1108,23 @@ pub fn gen_hidden(t: &mut Tape) -> HiddenCase {
         0 => t.b_u16(),
         _ => ASSIGNED[t.below(39)],
     };
-    let sl = match t.below(6) {
-        0 => 0,
-        _ => t.below(24),
-    };
-    let secret = t.blob(sl);
+    let secret = gen_secret(t);
     let rv = t.u32().to_be_bytes();
     if t.chance(40) {
-        let n = match t.below(6) {
+        let n = match t.below(7) {
             0 => t.below(70),
             1 => t.below(1041),
             2 => 16 * t.below(66) + [1, 8, 15][t.below(3)],
             3 => 0,
+            4 => 16 * (60 + t.below(25)),
             _ => 16 * t.below(6),
         };
         let value = t.raw(n);
         return HiddenCase { attr, value, secret, rv, crafted: None };
     }
-    let blocks = match t.below(8) {
-        0 => 1 + t.below(64),
+    let blocks = match t.below(16) {
+        0 | 1 => 1 + t.below(64),
+        2 => 63 + t.below(20), // Hidden is a public struct: values longer than any wire AVP (1024, 1040, ... octets) are legal arguments
         _ => 1 + t.below(4),
     };
     let n = blocks * 16;
